@@ -101,8 +101,9 @@ def runOp (args impl : List String) : Option (String × String) := do
       else if n "printAfter" > 0 then "FAIL progress-still-being-printed-after-the-run-returned"
       else if n "leak" ≠ 0 then "FAIL goroutine-of-the-run-remains"
       else if an "dur" "600" ≤ 10 ∧ n "started" ≠ 0 then "FAIL iteration-started-inside-the-10ms-guard"
-      else if an "retmax" "0" > 0 ∧ n "ret" > an "retmax" "0" then "FAIL run-did-not-stop-on-time"
-      else if ¬setupFailed ∧ n "laststart" > stopMs + 150 then "FAIL iteration-requested-after-triggering-should-have-stopped"
+      else if an "retmax" "0" > 0 ∧ n "ret" > an "retmax" "0" + max 0 (n "stall") then "FAIL run-did-not-stop-on-time"
+      -- (wall-clock bound: widened by the longest time the harness process itself went unscheduled during the run)
+      else if ¬setupFailed ∧ n "laststart" > stopMs + 150 + max 0 (n "stall") then "FAIL iteration-requested-after-triggering-should-have-stopped"
       else if ¬setupFailed ∧ maxit = 0 ∧ n "ret" < stopMs - 2 then "FAIL run-returned-before-the-earliest-stop-condition"
       else if ¬setupFailed ∧ plain ∧ maxBody ≤ 250 ∧ n "ret" > stopMs + maxBody + an "cleanup" "0" + 1000 then "FAIL run-did-not-return-once-triggering-stopped-and-iterations-finished"
       else if plain ∧ n "inflight" > 0 ∧ n "ret" < stopMs + an "timeout" "3000" - 60 ∧ maxit = 0 then "FAIL gave-up-on-iterations-before-the-completion-timeout"
